@@ -226,7 +226,7 @@ def sweep_stale_scratch():
     except OSError:
         return
     for n in names:
-        m = re.match(r"verif-(?:part-)?0*(\d+)-", n)
+        m = re.match(r"verif-(?:part-|pyc-)?0*(\d+)-", n)
         if not m:
             continue
         try:
